@@ -9,9 +9,10 @@ Clause decided: "nothing the source states is lost on the way through the IR".
      frontend sets (keyword/positional at a construction site) is read by the
      selected backend handler or a helper it calls with the node.
  R3  parse-tree consumption: a frontend handler ``visit_<K>`` whose fparser
-     grammar class K carries operands (non-empty ``use_names``) must read its
-     parse-tree argument; a handler building the IR node from ``**kwargs`` alone
-     drops the operands (``CYCLE outer`` -> ``CYCLE``).
+     grammar class K carries operands (non-empty ``use_names``) must return a
+     value that data-depends on its parse-tree argument (taint through locals);
+     a handler building the IR node from ``**kwargs`` alone drops the operands
+     (``CYCLE outer`` -> ``CYCLE``).
  R4  parentheses survive the round trip: the frontend materialises a source
      parenthesis as a ``Parenthesised*`` node only for the operator classes
      tested in ``FParser2IR.visit_Parenthesis``; for every other operator class
@@ -191,7 +192,34 @@ def run(ctx):
         nh += 1
         ops = use_names.get(K)
         par = X.param_name(f)
-        uses_o = any(isinstance(n, ast.Name) and n.id == par for n in ast.walk(ast.Module(body=f.node.body, type_ignores=[])))
+        # data dependence: some returned value (or a side-effecting call) is computed from the parse-tree parameter
+        tainted = {par}
+        changed = True
+        while changed:
+            changed = False
+            for n in ast.walk(f.node):
+                pairs = []
+                if isinstance(n, ast.Assign):
+                    pairs = [(t, n.value) for t in n.targets]
+                elif isinstance(n, (ast.AugAssign, ast.AnnAssign)) and n.value is not None:
+                    pairs = [(n.target, n.value)]
+                elif isinstance(n, ast.NamedExpr):
+                    pairs = [(n.target, n.value)]
+                elif isinstance(n, (ast.For, ast.comprehension)):
+                    pairs = [(n.target, n.iter)]
+                elif isinstance(n, ast.With):
+                    pairs = [(i.optional_vars, i.context_expr) for i in n.items if i.optional_vars is not None]
+                for t, v in pairs:
+                    if any(isinstance(x, ast.Name) and x.id in tainted for x in ast.walk(v)):
+                        for x in ast.walk(t):
+                            if isinstance(x, ast.Name) and x.id not in tainted:
+                                tainted.add(x.id)
+                                changed = True
+        rets = [r for r in ast.walk(f.node) if isinstance(r, (ast.Return, ast.Yield)) and r.value is not None]
+        uses_o = any(isinstance(x, ast.Name) and x.id in tainted for r in rets for x in ast.walk(r.value))
+        if not uses_o and not rets:
+            # handlers without a return value act through side effects: any use of the parameter counts
+            uses_o = any(isinstance(n, ast.Name) and n.id == par for n in ast.walk(ast.Module(body=f.node.body, type_ignores=[])))
         inst = f'visit_{K}'
         if uses_o or not ops:
             ctx.judge('R3', inst, nontrivial=bool(ops), facts={'handler': f.name, 'operands': ops})
@@ -202,7 +230,7 @@ def run(ctx):
             ctx.judge('R3', inst, nontrivial=False, facts={'exempt': R3_EXEMPT[K]})
         else:
             ctx.violation('R3', f'FParser2IR.visit_{K}', f.where,
-                          f'fparser class {K} carries operands {ops} but the handler {f.name} never looks at the parse tree '
+                          f'fparser class {K} carries operands {ops} but the value returned by {f.name} does not depend on the parse tree '
                           f'(`{ast.unparse(f.node.body[-1])}`): the operands are dropped from the IR', facts={'operands': ops})
     ctx.floor('R3', 'frontend handlers', nh, 230)
 
@@ -279,6 +307,8 @@ def _r5(ctx):
 
 
 MUTANTS = [
+    Mutant('save-entities-dropped', 'loki/frontend/fparser.py', "        return ir.SaveStmt(text=entities, **kwargs)\n", "        return ir.SaveStmt(**kwargs)\n",
+           expect=('R3', 'visit_Save_Stmt')),
     Mutant('case-default-assumed-last', 'loki/frontend/fparser.py',
            "            default_index = values.index('DEFAULT')\n            else_body = bodies[default_index]\n            values = values[:default_index] + values[default_index+1:]\n            bodies = bodies[:default_index] + bodies[default_index+1:]\n",
            "            values = tuple(v for v in values if v != 'DEFAULT')\n            *bodies, else_body = bodies\n", expect=('R5', 'visit_Case_Construct')),
